@@ -155,6 +155,37 @@ def create_table(
     **kwargs,
 ):
     """
+    Creates LR table. See `_create_table` for the arguments.
+
+    The augmented production of the grammar is rewritten during the table
+    construction. It is restored on every exit, an exception included, so
+    that the grammar stays usable for later constructions.
+    """
+    old_start_production_rhs = grammar.productions[0].rhs
+    try:
+        return _create_table(
+            grammar,
+            itemset_type,
+            start_production,
+            prefer_shifts,
+            prefer_shifts_over_empty,
+            debug=debug,
+            **kwargs,
+        )
+    finally:
+        grammar.productions[0].rhs = old_start_production_rhs
+
+
+def _create_table(
+    grammar,
+    itemset_type=LR_1,
+    start_production=1,
+    prefer_shifts=False,
+    prefer_shifts_over_empty=True,
+    debug=False,
+    **kwargs,
+):
+    """
     Arguments:
     grammar (Grammar):
     itemset_type(int) - SRL=0 LR_1=1. By default LR_1.
